@@ -86,8 +86,19 @@ package server
 //@   ensures (d == nil || d.updated) ==> !pending
 //@   ensures !(d == nil || d.updated) ==> pending == old(pending)
 
+// Server.command is the pure dispatcher: inside handleInputCommand it is inlined (so that every handler call is
+// checked against the lock and gate state); other callers see it as "one command executed".
+//@ ghost var ndispatched int
+//@ ghost var lastDispatched []string
 //@ func Server.command
-//@   inline
+//@   inline-in Server.handleInputCommand
+//@   frame-by-effects
+//@   requires msg != nil
+//@   modifies ndispatched, lastDispatched, pending
+//@   ensures ndispatched == old(ndispatched) + 1 && lastDispatched == old(msg.Args)
+// assumed (not proved): the commands the loader replays do not touch the log file or its size counter; only
+// MASSINSERT, AOF and AOFMD5 do, and those are never written to the log.
+//@   ensures [replay-leaves-log-alone] s.aofsz == old(s.aofsz)
 //@ func Server.handleInputCommand
 //@   lockcheck
 //@   requires s != nil && s.config != nil && client != nil && msg != nil && len(msg.Args) > 0 && msg._command == ""
@@ -136,3 +147,25 @@ package server
 //@ func errTimeoutOnCmd
 //@   modifies nothing
 //@   ensures result != nil
+
+// ---- loading the append-only file (C04, C03) --------------------------------
+// fdata/fpos: the file content and the read/write position (ghost). The loader consumes the file front to back;
+// `aofsz` counts the bytes read; what is left in `buf` at EOF is an incomplete command (or nothing).
+//@ func commandErrIsFatal
+//@   modifies nothing
+//@ func Server.loadAOF
+//@   requires s != nil && s.aof != nil && fpos == 0 && s.aofsz == 0 && ncomplete == ndispatched
+//@   modifies s.aofsz, fdata, fpos, ndispatched, lastDispatched, pending, ncomplete
+//@   frame-by-effects
+//@   ensures [prefix] err == nil ==> len(fdata) <= len(old(fdata)) && fdata == old(fdata)[:len(fdata)]
+//@   ensures [size] err == nil ==> s.aofsz == len(fdata)
+//@   ensures [append-position] err == nil ==> fpos == len(fdata)
+//@   ensures [torn-only] err == nil && len(fdata) < len(old(fdata)) ==> rnIncomplete(old(fdata)[len(fdata):])
+//@   ensures [all-dispatched] err == nil ==> ncomplete == ndispatched
+//@   loop 2 invariant fdata == old(fdata) && s.aofsz == fpos && 0 <= fpos && fpos <= len(fdata) && len(buf) <= fpos && ncomplete == ndispatched
+//@   loop 2 invariant buf == fdata[fpos-len(buf):fpos]
+//@   loop 2 invariant len(buf) > 0 ==> rnIncomplete(buf)
+//@   loop 3 invariant fdata == old(fdata) && s.aofsz == fpos && 0 <= fpos && fpos <= len(fdata) && len(data) <= fpos
+//@   loop 3 invariant [count] ncomplete == ndispatched
+//@   loop 3 invariant data == fdata[fpos-len(data):fpos]
+//@   loop 4 invariant len(msg.Args) == idx4 && forall(i, 0, idx4, msg.Args[i] == args[i])
